@@ -83,6 +83,15 @@ FIXED = [
     ("C01", "C01/outside-access:os.stat:elsewhere:object", "abf914c",
      "gophermap entry with selector 'URL:http://...' (no leading slash): the handler stat()ed root + 'URL:...', a path "
      "beside the document root"),
+    ("C12", "C12/directory-lost:dot-dangling-symlink:error-reply", "66bbea0",
+     "a dangling symlink named '.x' made the UMN listing fail (read as a link file, IOError uncaught); a FIFO named '.x' "
+     "made open() block forever: every listing of the directory hung (C12/request-never-returns@base.py:open)"),
+    ("C16", "C16/differs:dir:menu-vs-any:gopher", "0624b51",
+     "archive with 'a/link -> ../dirlink/file' and 'dirlink -> realdir' stored later: failed lookups of the first "
+     "resolution pass were cached in invalid_paths, everything below dirlink stayed not-found"),
+    ("C16", "C16/nested-archive-index-read-from-working-directory", "ddeba46",
+     "nested archive + outer member '.cache.pygopherd.zip3.inner.zip': shelve.open() of that relative path unpickled a "
+     "dbm file from the server's working directory and served a listing from it (also C01)"),
 ]
 
 KNOWN = [
